@@ -192,6 +192,7 @@ pub struct Resolver<'a> {
     pub bb: &'a SharedBlackboard,
     pub allow_garbage: bool,
     pub conformant: bool,
+    pub abuser: bool,
 }
 
 fn sel<T: Copy>(a: u32, own: &[T], global: &[T], never: impl Fn(u64) -> T) -> T {
@@ -930,7 +931,10 @@ impl Resolver<'_> {
                 .into()
             }
             OpKind::QueryIntrospectionReply => {
-                if self.known.inbound_intro_queries.is_empty() && (self.conformant || op.c % 64 != 63) {
+                // An abuser answers queries nobody asked it (with small serials, which are the ones
+                // the broker has in flight to others) once in four times, others hardly ever.
+                let unsolicited = if self.abuser { op.c % 4 == 3 } else { op.c % 64 == 63 };
+                if self.known.inbound_intro_queries.is_empty() && (self.conformant || !unsolicited) {
                     // Nothing to answer (an unsolicited reply closes the connection; keep that rare).
                     let serial = self.serial(Pending::Other);
                     return Sync { serial }.into();
